@@ -496,3 +496,40 @@ Proof.
       destruct (round_man_exact Fdbl a Ha HL) as (_ & X1 & X2).
       destruct (2 ^ f_nbits Fdbl - 1 <? mbf_round_man Fdbl a) eqn:C; lia.
 Qed.
+
+(* with the executable Float.from_value: what a float variable returns after set_variable *)
+Theorem float_model_set_get E st name sg m e : e_fv E = mbf_from_value ->
+  scalar_name name sg -> sg_fmt_name sg -> m <> 0 ->
+  let b := mbf_from_mag (fmt_of sg) (m <? 0) (Z.abs m) e in
+  let st' := fst (set_variable E st name (PFloat m e)) in
+  snd (set_variable E st name (PFloat m e)) = Ok tt /\
+  get_variable E st' name 0 = Ok (mbf_to_value (fmt_of sg) b) /\
+  evaluate st' name [] = (st', Ok (mbf_to_value (fmt_of sg) b)).
+Proof.
+  intros HE Hn Hs Hm. apply float_set_get; try assumption.
+  rewrite HE. unfold mbf_from_value. destruct (m =? 0) eqn:E0; [lia | reflexivity].
+Qed.
+
+(* the float clause of the property, for one environment *)
+Definition float_statement (E : env) : Prop :=
+  forall st name sg m e, scalar_name name sg -> sg_fmt_name sg ->
+    m <> 0 -> Z.abs m < 2 ^ 53 -> in_range (fmt_of sg) m e ->
+    exists b,
+      near (fmt_of sg) m e b /\
+      let st' := fst (set_variable E st name (PFloat m e)) in
+      snd (set_variable E st name (PFloat m e)) = Ok tt /\
+      get_variable E st' name 0 = Ok (mbf_to_value (fmt_of sg) b) /\
+      evaluate st' name [] = (st', Ok (mbf_to_value (fmt_of sg) b)).
+
+Definition float_contract (E : env) : Prop :=
+  forall F m e, (F = Fsng \/ F = Fdbl) -> m <> 0 -> Z.abs m < 2 ^ 53 -> in_range F m e ->
+    exists b, e_fv E F (PFloat m e) = Ok b /\ near F m e b.
+
+Theorem float_partial_thm E : float_contract E -> float_statement E.
+Proof. intros HC st name sg m e. apply float_partial. exact HC. Qed.
+
+Theorem float_model_thm E : e_fv E = mbf_from_value -> float_statement E.
+Proof.
+  intros HE. apply float_partial_thm. intros F m e HF Hm Hb Hr. rewrite HE.
+  apply model_meets_contract; assumption.
+Qed.
